@@ -146,7 +146,8 @@ Record adapt := { a_on : bool; a_body : string; a_compress : bool; a_decompress 
 
 Record pcfg := {
   p_cstream : bool;            (* clientMaxBodySize = -1 *)
-  p_sstream : bool;            (* serverMaxBodySize = -1 *)
+  p_pool_max : Z;              (* pool-level serverMaxBodySize *)
+  p_proxy_max : Z;             (* proxy-level serverMaxBodySize *)
   p_server_host : string;      (* host[:port] of the server URL *)
   p_host_is_name : bool;       (* Server.addrIsHostName *)
   p_keep_host : bool;
@@ -154,6 +155,10 @@ Record pcfg := {
   p_ra : adapt;                (* RequestAdaptor *)
   p_rs : adapt                 (* ResponseAdaptor *)
 }.
+
+(** the response is streamed when the effective serverMaxBodySize (pool-level value unless
+    0, then the proxy-level one) is negative *)
+Definition p_sstream (c : pcfg) : bool := effective (p_pool_max c) (p_proxy_max c) <? 0.
 
 (** the client's request as net/http hands it to the mux (canonical header keys; Host and
     Transfer-Encoding are not in the map) *)
@@ -283,7 +288,7 @@ Definition build_response (q : quirks) (f : fns) (c : pcfg) (req_headers : heade
                           | Some m => compress q f m req_headers r0
                           | None => (r0, false)
                           end in
-  match fetch_payload slen stake EmptyString (if p_sstream c then -1 else 0)
+  match fetch_payload slen stake EmptyString (effective (p_pool_max c) (p_proxy_max c))
                       {| s_decl := rs_decl r; s_bytes := rs_body r; s_clean := true |} with
   | Payload b => Ok {| rs_status := rs_status r; rs_headers := rs_headers r; rs_cl := rs_cl r;
                        rs_decl := rs_decl r; rs_body := b; rs_stream := false |}
@@ -433,3 +438,10 @@ Definition step (q : quirks) (f : fns) (c : pcfg) (e : hedit) (s : cache_spec)
           end
       end
   end.
+
+(** an upload the client cuts off (announced length not reached, chunked stream without its
+    last-chunk, connection closed mid-body) is never forwarded as a complete request and never
+    answered with a success: buffered, FetchPayload fails (400); streamed, the transport's
+    body read fails while the client has gone (499) - see model/Body.v [serve] *)
+Definition exchange_cut (q : quirks) (f : fns) (c : pcfg) (cut : bool) (r : creq) (b : bresp) : outcome :=
+  if cut then Answered (failure (if p_cstream c then 499 else 400)) None else exchange q f c r b.
